@@ -49,6 +49,15 @@ def run(ctx):
                                       rng.range(1, 1 << 30) if v % 2 else 0, timeout_ms=8000, shared_pkg=shared, dup=dup))
         groups.append(variants)
         gmeta.append((n, imports, base_req, faults))
+    # stress: the race for creating a package node of the shared symbol table is rare, so three tiny workspaces whose
+    # files all live in one new package and declare the same symbol are compiled thousands of times; the collision must
+    # be reported every single time
+    stress_groups = []
+    for n, reps in ((2, ctx.budget(5000, 60000)), (3, ctx.budget(3000, 40000)), (8, ctx.budget(1500, 20000))):
+        shared = list(range(n))
+        variants = [json_case(n, [[] for _ in range(n)], shared, 16 if k % 2 else 8, None, 0, timeout_ms=8000, shared_pkg=shared, dup=shared)
+                    for k in range(reps)]
+        stress_groups.append(variants)
     # real files of the repository's own test data, compiled repeatedly with different settings
     td = os.path.join(REPO, "internal", "testdata")
     real_sets = [
@@ -109,6 +118,16 @@ def run(ctx):
         for v, o in zip(g[:2], os_[:2]):
             terms.append(coq_case(n, imports, faults, v["req"], v["par"], o["ok"], None))
             meta.append((v, o, sp))
+    for g in stress_groups:
+        os_ = ctx.impl("graphs", g, shards=NCPU)
+        ctx.count(("stress", g[0]["n"]), True, "stress-same-package")
+        ctx.evaluations += len(g) - 1
+        bad = [o for o in os_ if "crash" in o or "panic" in o or o.get("hang")]
+        if bad:
+            ctx.violation("hang-or-crash", "a run did not return", {"input": g[0], "observed": bad[0]})
+        elif any(o["ok"] for o in os_):
+            ctx.violation("verdict-depends-on-schedule", "files of one new package declaring the same symbol: the collision was missed in %d of %d "
+                          "identical compilations" % (sum(1 for o in os_ if o["ok"]), len(os_)), {"input": g[0], "repeats": len(g)})
     flat_r = [v for g in real_groups for v in g]
     routs = ctx.impl("graphs", flat_r, shards=min(NCPU, max(1, len(flat_r))))
     pos = 0
